@@ -21,8 +21,10 @@ InForms(x) == x \in Forms
 SpellSeq == SelectSeq(<<"time", "qtime", "Time", "TIME">>, InSpells)
 \* "intm" / "intp": an integer timestamp minus / plus a duration ( 946688400000000000 - 1h ); "rfcm" / "rfcp": the
 \* same with an RFC3339 string.  Reduce folds them to a time literal.
-FormSeq == SelectSeq(<<"int", "rfc", "dt", "date", "dur", "now", "intm", "intp", "rfcm", "rfcp">>, InForms)
-ArithForms == {"intm", "intp", "rfcm", "rfcp"}
+\* "revrfc" / "revdt": the duration on the LEFT of the sum ( 1h + '<string>' ); ( 1h + <integer> is a duration + integer, which Reduce does not fold:
+\* not a time bound of the language, "revint" is kept for experiments only)
+FormSeq == SelectSeq(<<"int", "rfc", "dt", "date", "dur", "now", "intm", "intp", "rfcm", "rfcp", "revrfc", "revdt", "revint">>, InForms)
+ArithForms == {"intm", "intp", "rfcm", "rfcp", "revrfc", "revdt", "revint"}
 
 \* which literal forms can denote the instant (k, d)
 FormOK(k, d, f) ==
